@@ -30,7 +30,7 @@ ANCHORS = [
 ]
 REQUIRED_ANCHORS = ANCHORS
 ITERABLES = ("list", "tuple", "set", "frozenset", "keys", "generator", "iterator")
-REQUIRED = ["subgraphs", "composes", "component_checks", "recompose_components", "cut_descriptor", "cut_change", "with_placeholder"] + [f"iterable:{k}" for k in ITERABLES] + ["cover:components", "cover:partition", "cover:overlap", "scale_cases", "mixed_class_pieces"]
+REQUIRED = ["subgraphs", "composes", "component_checks", "recompose_components", "cut_descriptor", "cut_change", "with_placeholder"] + [f"iterable:{k}" for k in ITERABLES] + ["cover:components", "cover:partition", "cover:overlap", "scale_cases", "mixed_class_pieces", "conflicting_overlaps"]
 
 
 def as_iterable(kind, S):
@@ -180,6 +180,35 @@ def check_case(ctx, case):
         ctx.violate(f"C17/subgraph-raises:{type(e).__name__}/{cls}/collection", f"subgraph raised {e!r}", case)
         return
     piece_pgs = [sem.pg_subgraph(src, set(p)) for p in parts]
+    if cover == "overlap" and "scale" not in case and rng.random() < 0.6:
+        # overlapping pieces that DISAGREE where they overlap (a fragment re-determined with another configuration, a
+        # configuration forgotten or newly assigned, other attribute values): the later piece wins
+        from ..snapshot import mk_desc
+
+        edited = 0
+        for k in range(len(pieces)):
+            for key, setter in (("astereo", "set_atom_stereo"), ("bstereo", "set_bond_stereo")):
+                for c, d in list(piece_pgs[k][key].items()):
+                    if rng.random() < 0.5:
+                        if sem.CHIRAL[d[0]]:
+                            par = rng.choice([None, -d[2]]) if d[2] is not None else rng.choice([1, -1])
+                        else:
+                            par = None if d[2] is not None else 0
+                        nd = (d[0], d[1], par)
+                        getattr(pieces[k], setter)(mk_desc(nd))
+                        piece_pgs[k][key][c] = nd
+                        edited += 1
+            for a in list(piece_pgs[k]["atoms"]):
+                if rng.random() < 0.3:
+                    pieces[k].set_atom_attribute(a, "label", k)
+                    piece_pgs[k]["atoms"][a]["label"] = k
+                    edited += 1
+        if edited:
+            ctx.count("conflicting_overlaps")
+        bad = [k for k in range(len(pieces)) if sem.pg_diff(piece_pgs[k], snap(pieces[k]), mode="exact")]
+        if bad:
+            ctx.count("harness:edited-piece-differs")
+            return
     # mixed-class compose: some pieces are handed over as instances of a base class of cls (a spectator molecule given
     # as a StereoMolGraph to StereoCondensedReactionGraph.compose, ...); they contribute what that class can hold
     bases = {"MolGraph": [], "StereoMolGraph": ["MolGraph"], "CondensedReactionGraph": ["MolGraph"], "StereoCondensedReactionGraph": ["StereoMolGraph", "CondensedReactionGraph", "MolGraph"]}[cls]
